@@ -577,7 +577,18 @@ class Installed(object):
             if vt is None:
                 raise RuntimeError('cannot join thread before it is started')
             sched.log('join_req', who=self_t._vname)
-            sched.yield_point(blocked_on=lambda: vt.finished)
+            if timeout is not None:
+                # a timed join: the other thread may take any amount of time (it may sit in a user's listener), so the
+                # timeout may expire whenever the joiner gets scheduled again before the other thread has ended
+                for _ in range(3):
+                    if vt.finished:
+                        break
+                    sched.yield_point()
+                if not vt.finished:
+                    sched.log('join_timeout', who=self_t._vname, timeout=timeout)
+                    return
+            else:
+                sched.yield_point(blocked_on=lambda: vt.finished)
             sched.log('joined', who=self_t._vname)
 
         def is_alive(self_t):
